@@ -147,6 +147,21 @@ def _ast_rules(ctx, repo, f):
         ctx.check(True, 'C09.1', 'cursor:no-name-capture:%s' % cur, site, 'no inner loop / with / walrus rebinds the argument cursor')
 
 
+def _appended(p, recv):
+    """the arguments reported on this path, in order: what is appended to the list `recv`, or - when `recv` holds the value of a
+    comprehension that was run as the loop it abbreviates - the elements that comprehension produced"""
+    apps = [e for e in p.events if e.kind == 'call' and e.ftext == recv + '.append' and e.args]
+    if apps:
+        return apps
+    comp = None
+    for e in p.events:
+        if e.kind == 'bind' and e.target == recv:
+            comp = getattr(e.value, '_comp', None)
+    if comp is None:
+        return []
+    return [e for e in p.events if e.kind == 'call' and e.ftext == '<listcomp>.append' and e.args and getattr(e, 'recv', None) is comp]
+
+
 def run(ctx):
     repo = ctx.repo
     ctx.decided = ['C09.1 cursor integrity (the k-th decoded argument is read from slot k, for signatures of up to %d characters)' % (3 if ctx.tier == 'thorough' else 2),
@@ -209,7 +224,7 @@ def run(ctx):
             continue
         m_ = re.search(r'tuple\((\w+)\)\)$', p.outcome_text())
         recv = m_.group(1) if m_ else 'args'
-        apps = [e for e in p.events if e.kind == 'call' and e.ftext == recv + '.append' and e.args]
+        apps = _appended(p, recv)
         # iterations of the signature loop whose character is a type code (by the decisions taken) must each append exactly one argument
         iters = {}
         for a, v in p.decisions:
@@ -326,7 +341,7 @@ def run(ctx):
                 continue
             m_ = re.search(r'tuple\((\w+)\)\)$', p.outcome_text())
             recv = m_.group(1) if m_ else 'args'
-            apps = [e for e in p.events if e.kind == 'call' and e.ftext == recv + '.append' and e.args]
+            apps = _appended(p, recv)
             if apps:
                 cps.append((p, apps))
         ctx.check(bool(cps), 'C09.3', 'kind:%s:has-path' % c, site, 'a path decodes code %s and appends an argument' % c, 'no path of extract_message appends an argument for code %s' % c)
